@@ -324,6 +324,10 @@ def r8_request_consumers(ctx):
 
 
 def run(ctx):
+    # (R9) a restarted module's timers fire: a wake-up is recorded iff its event is scheduled, also in the event that requests the
+    # shutdown (shared with C05.R3)
+    from .C05 import r3_wakeup_scheduling
+    r3_wakeup_scheduling(ctx, rule='C09.R9')
     r8_request_consumers(ctx)
     r1_inert_handlers(ctx)
     r2_transit_guard(ctx)
